@@ -314,3 +314,26 @@ def r07_10(ctx):
     ctx.check(table == want, "_parse_grid: leading '-' drops the first point, trailing '-' the last", detail="the wrong end of the sampled grid is left out", expected=str(want), found=str(table), fi=f, sample={"table": str(table)})
     inits = {d.name: ast.unparse(d.value) for nm in ("include_first", "include_last") for d in sc.defs.get(nm, []) if d.kind == "assign" and not sc.guards(d.stmt)}
     ctx.check(inits == {"include_first": "True", "include_last": "True"}, "_parse_grid: both end points are included by default", detail="defaults", expected="True / True", found=str(inits), fi=f)
+
+
+@rule("R07.11", min_instances=2, desc="SplineMethod.grid_control honours include_first / include_last: times and values are cut together, by one point, unless an offset already removed that point")
+def r07_11(ctx):
+    P = ctx.prog
+    f = P.own_method("SplineMethod", "grid_control")
+    sc = ctx.scope(f)
+    rets = [r for r in walk_no_nested(f.node) if isinstance(r, ast.Return) and isinstance(r.value, ast.Tuple) and len(r.value.elts) == 2]
+    if len(rets) != 1 or not all(isinstance(e, ast.Name) for e in rets[0].value.elts):
+        raise AnalysisError("SplineMethod.grid_control: expected `return <time name>, <values name>`")
+    tn, vn = [e.id for e in rets[0].value.elts]
+    for flag, tsl, vsl, off in (("include_first", "1:", ":,1:", "min_offset"), ("include_last", ":-1", ":,:-1", "max_offset")):
+        cuts = {}
+        for st in walk_no_nested(f.node):
+            if isinstance(st, ast.Assign) and isinstance(st.targets[0], ast.Name) and st.targets[0].id in (tn, vn) and isinstance(st.value, ast.Subscript) \
+                    and isinstance(st.value.value, ast.Name) and st.value.value.id == st.targets[0].id:
+                gs = [(ast.unparse(t).replace(" ", ""), p) for t, p in sc.guard_conjuncts(st)]
+                if (flag, False) in gs:
+                    cuts[st.targets[0].id] = (ast.unparse(st.value.slice).replace(" ", "").strip("()"), sorted(g for g in gs if g[0] != flag))
+        ok = cuts.get(tn, (None,))[0] == tsl and cuts.get(vn, (None,))[0] == vsl and cuts[tn][1] == cuts[vn][1] and cuts[tn][1] in ([], [("%s==0" % off, True)])
+        ctx.check(ok, "SplineMethod.grid_control leaves out the %s point when %s is False" % ("first" if flag == "include_first" else "last", flag),
+                  detail="%s ignored by SplineMethod sampling / constraint placement (or times and values cut differently)" % flag,
+                  expected="if not %s [and %s==0]: %s = %s[%s]; %s = %s[%s]" % (flag, off, tn, tn, tsl, vn, vn, vsl), found=str(cuts), fi=f, sample={"flag": flag, "cuts": str(cuts)})
